@@ -391,6 +391,10 @@ func (e *runEnv) contextW(data map[string]absVal, wrapped []string) *plush.Conte
 	if _, ok := data["tm"]; !ok {
 		ctx.Set("tm", time.Date(2024, 3, 5, 10, 30, 0, 0, time.UTC))
 	}
+	// ... and a counter n0 = 1 (templates assign to it without let: the write must stay in the assigning scope)
+	if _, ok := data["n0"]; !ok {
+		ctx.Set("n0", 1)
+	}
 	// getx(): the value bound to x, handed to the template as a helper's result (no variable read)
 	if x, ok := data["x"]; ok && x.T != "gofn" {
 		gx := materialize(x, e)
